@@ -43,6 +43,11 @@ type c12Case struct {
 	BigRec  bool `json:"bigrec,omitempty"`
 	CloseAt int  `json:"closeat,omitempty"` // Client.Close(): 0 never, 1 before the requests are answered, 2 after the stream was delivered, 3 concurrently with new RoundTrips
 	Follow  int  `json:"follow"`            // follow-up requests on a fresh connection afterwards
+	// LateRest (pure cut followed by silence only): once the callers have given up (MaxResponseTime), the server,
+	// which may not have seen their RST_STREAMs yet, delivers the rest of its well-formed stream: late header blocks
+	// (some ending in CONTINUATION) that insert into the dynamic table, late DATA. The follow-up requests then go
+	// out on the same, still healthy connection, are answered with blocks that index those entries, and must succeed.
+	LateRest bool `json:"laterest,omitempty"`
 }
 
 const c12Timeout = 250 * time.Millisecond
@@ -206,6 +211,15 @@ func c12DialInProgress() bool {
 			g = g[:i] // the loops of a connection are "created by ...(*Conn).Handshake": not a frame
 		}
 		if strings.Contains(g, "http2.(*Dialer).Dial") || strings.Contains(g, "http2.(*Conn).Handshake") || strings.Contains(g, "http2.(*Dialer).tryDial") {
+			return true
+		}
+	}
+	return false
+}
+
+func hasShared(c *speer.Call) bool {
+	for _, f := range c.Fields {
+		if f.Name == "x-shared" && f.Value == "a-value-that-is-indexed-from-the-second-response-on" {
 			return true
 		}
 	}
@@ -488,6 +502,17 @@ func c12Run(c c12Case) Outcome {
 			return fail("success-after-close", "%s: a request issued while the client was being closed succeeded without any server having answered it", desc)
 		}
 	}
+	late2 := c.LateRest && c.End == "silence" && n < len(stream) && len(c.Muts) == 0 && c.Adv == "" && c.FailW == 0 && c.FailLate == 0 && c.CloseAt == 0 && !connDead
+	if late2 {
+		_ = sc.Write(stream[n:])
+		if ok, d := env.Quiesce(); !ok {
+			return Outcome{Inconcl: "no quiescence after the late rest of the stream: " + d}
+		}
+		if c.Follow == 0 {
+			c.Follow = 1
+		}
+		cls = append(cls, "late-rest")
+	}
 	// ---- a follow-up batch on a healthy connection (only when the client is still open)
 	if c.CloseAt == 0 && c.Follow > 0 {
 		nconn := len(env.ConnsCopy())
@@ -515,7 +540,8 @@ func c12Run(c c12Case) Outcome {
 						if f.Name == ":path" && strings.HasPrefix(f.Value, "/f") && !sc2.Answered(e.Stream) && got[e.Stream] != nil && got[e.Stream].EndStream > 0 {
 							sc2.MarkAnswered(e.Stream)
 							t := peer.TagOfURI(f.Value)
-							blk := sc2.EncodeBlock(nil, []peer.FieldSpec{{F: refhpack.Field{Name: ":status", Value: "200"}, R: refhpack.Rep{Kind: 0}}, {F: refhpack.Field{Name: "x-tag", Value: t}, R: refhpack.Rep{Kind: 1}}})
+							blk := sc2.EncodeBlock(nil, []peer.FieldSpec{{F: refhpack.Field{Name: ":status", Value: "200"}, R: refhpack.Rep{Kind: 0}}, {F: refhpack.Field{Name: "x-tag", Value: t}, R: refhpack.Rep{Kind: 1}},
+								{F: refhpack.Field{Name: "x-shared", Value: "a-value-that-is-indexed-from-the-second-response-on"}, R: refhpack.Rep{Kind: 0, Alt: 1}}})
 							_ = sc2.Write(peer.SplitBlock(e.Stream, blk, nil, false, 0, false, 0, false, 0)[0])
 							_ = sc2.Write(rawframe.Append(nil, rawframe.Data, rawframe.FlagEndStream, e.Stream, peer.BodyFor(t, 12)))
 						}
@@ -563,6 +589,12 @@ func c12Run(c c12Case) Outcome {
 				}
 				return fail("follow-up-unresolved", "%s: follow-up request %s never resolved; client goroutines:\n%s", desc, tag, c12Dump())
 			}
+			if late2 && fc.Err != nil {
+				return fail("follow-up-failed-after-late-frames", "%s: after the callers had timed out the server delivered the rest of its (well-formed) stream; follow-up request %s on the same connection then failed: %v", desc, tag, fc.Err)
+			}
+			if late2 && fc.Err == nil && !hasShared(fc) {
+				return fail("follow-up-wrong-response", "%s: follow-up request %s after late frames got fields %v: the indexed x-shared field is missing or wrong", desc, tag, fc.Fields)
+			}
 			if fc.Err == nil && (!hasTag(fc, tag) || string(fc.Body) != string(peer.BodyFor(tag, 12))) {
 				return fail("follow-up-wrong-response", "%s: follow-up request %s got fields %v body %q: a stale resolution or another request's response", desc, tag, fc.Fields, headStr(fc.Body))
 			}
@@ -607,6 +639,11 @@ func c12Gen(t *rapid.T) c12Case {
 	c.BigRec = rapid.Bool().Draw(t, "bigrec")
 	switch rapid.IntRange(0, 5).Draw(t, "kind") {
 	case 0: // pure cut
+		c.LateRest = rapid.Bool().Draw(t, "laterest")
+		if c.LateRest {
+			c.End = "silence"
+			break
+		}
 		if rapid.IntRange(0, 3).Draw(t, "cutfail") == 0 {
 			c.FailLate = rapid.OneOf(rapid.IntRange(1, 40), rapid.IntRange(1, 3000)).Draw(t, "faillate")
 		}
